@@ -85,16 +85,35 @@ def _configure(obj, vi, quiet, order):
         obj.set_quiet(not quiet)
         obj.set_verbosity(LEVELS[vi])
         obj.set_quiet(quiet)
-    else:
+    elif order == 3:
         obj.set_verbosity(LEVELS[3 - vi])
         obj.set_quiet(quiet)
         obj.set_verbosity(LEVELS[vi])
+    elif hasattr(obj, "error_output"):
+        # an I/O object whose two outputs were set individually before (and so may be out of step): the I/O-level setters bring BOTH into line
+        if order == 4:
+            obj.output.set_quiet(quiet)
+            obj.output.set_verbosity(LEVELS[vi])
+            obj.error_output.set_quiet(not quiet)
+            obj.error_output.set_verbosity(LEVELS[3 - vi])
+        else:
+            obj.error_output.set_quiet(quiet)
+            obj.error_output.set_verbosity(LEVELS[vi])
+            obj.output.set_quiet(not quiet)
+            obj.output.set_verbosity(LEVELS[3 - vi])
+            obj.set_quiet(not quiet)
+            obj.set_verbosity(LEVELS[3 - vi])
+        obj.set_quiet(quiet)
+        obj.set_verbosity(LEVELS[vi])
+    else:
+        obj.set_verbosity(LEVELS[vi])
+        obj.set_quiet(quiet)
     return obj.is_quiet() == quiet and (not hasattr(obj, "verbosity") or obj.verbosity == LEVELS[vi])
 
 
 def gate_output(vi: int, flags: Optional[int], quiet: bool, order: int) -> bool:
     """
-    pre: 0 <= vi <= 3 and 0 <= order <= 3
+    pre: 0 <= vi <= 3 and 0 <= order <= 5
     post: _
     """
     meth, fmt = PART["meth"], PART["fmt"]
@@ -108,7 +127,7 @@ def gate_output(vi: int, flags: Optional[int], quiet: bool, order: int) -> bool:
 
 def gate_output_twin(vi: int, flags: Optional[int], quiet: bool, order: int) -> bool:
     """
-    pre: 0 <= vi <= 3 and 0 <= order <= 3
+    pre: 0 <= vi <= 3 and 0 <= order <= 5
     post: _
     """
     meth, fmt = PART["meth"], PART["fmt"]
@@ -122,7 +141,7 @@ def gate_output_twin(vi: int, flags: Optional[int], quiet: bool, order: int) -> 
 
 def gate_section(vi: int, flags: Optional[int], quiet: bool, order: int) -> bool:
     """
-    pre: 0 <= vi <= 3 and 0 <= order <= 3
+    pre: 0 <= vi <= 3 and 0 <= order <= 5
     post: _
     """
     meth, ansi = PART["meth"], PART["ansi"]
@@ -143,7 +162,7 @@ def gate_section(vi: int, flags: Optional[int], quiet: bool, order: int) -> bool
 
 def gate_section_second(vi: int, flags: Optional[int], quiet: bool, order: int) -> bool:
     """
-    pre: 0 <= vi <= 3 and 0 <= order <= 3
+    pre: 0 <= vi <= 3 and 0 <= order <= 5
     post: _
     """
     meth = PART["meth"]
@@ -163,9 +182,46 @@ def gate_section_second(vi: int, flags: Optional[int], quiet: bool, order: int) 
     return wrote == _expected(vi, flags, quiet, SEC_METHODS[meth][1])
 
 
+def gate_section_redraw(vi: int, flags: Optional[int], quiet: bool, order: int, then: int) -> bool:
+    """
+    pre: 0 <= vi <= 3 and 0 <= order <= 1 and then == PART["then"]
+    post: _
+    """
+    # a gated write into the YOUNGER of two stacked ANSI sections, then the older section writes (which re-draws the younger one) or the
+    # younger one is cleared / overwritten: suppressed text never reaches the stream, neither at once nor later; no stray cursor codes
+    meth = PART["meth"]
+    st = BufferedOutputStream()
+    parent = Output(st, AnsiFormatter(forced=True))
+    s1 = parent.section()
+    s2 = parent.section()
+    s1.write_line("a")
+    if not _configure(s2, vi, quiet, order):
+        return False
+    exp = _expected(vi, flags, quiet, SEC_METHODS[meth][1])
+    _call(s2, SEC_METHODS[meth], flags)
+    if (s2.content != "") != exp:
+        return False
+    before = st.fetch()
+    if ("x" in before) != exp:
+        return False
+    if then == 0:
+        s1.write_line("c")                   # re-draws everything below s1
+        after = st.fetch()[len(before):]
+        return ("x" in after) == exp and "c" in after
+    s2.set_quiet(False)
+    s2.set_verbosity(4)
+    if then == 1:
+        s2.clear()
+        after = st.fetch()[len(before):]
+        return (after != "") == exp           # nothing to clear when nothing was shown
+    s2.overwrite("y")
+    after = st.fetch()[len(before):]
+    return "y" in after and "x" not in after and (("\x1b[" in after) == exp)
+
+
 def gate_io(vi: int, flags: Optional[int], quiet: bool, order: int) -> bool:
     """
-    pre: 0 <= vi <= 3 and 0 <= order <= 3
+    pre: 0 <= vi <= 3 and 0 <= order <= 5
     post: _
     """
     meth, buffered = PART["meth"], PART["buffered"]
@@ -187,7 +243,7 @@ def gate_io(vi: int, flags: Optional[int], quiet: bool, order: int) -> bool:
 
 def gate_io_section(vi: int, flags: Optional[int], quiet: bool, order: int) -> bool:
     """
-    pre: 0 <= vi <= 3 and 0 <= order <= 3
+    pre: 0 <= vi <= 3 and 0 <= order <= 5
     post: _
     """
     meth = PART["meth"]
@@ -252,6 +308,11 @@ def conditions(tier):
                           "part": {"meth": mi, "ansi": ansi}, "bounds": b + "SectionOutput.%s" % m[0]})
         conds.append({"name": "gate_section_second[%s]" % m[0], "fn": gate_section_second, "timeout": t,
                       "part": {"meth": mi}, "bounds": b + "first of two stacked ANSI sections, SectionOutput.%s" % m[0]})
+    for mi, m in enumerate(SEC_METHODS):
+        if m[0] in ("write", "write_line", "overwrite"):
+            for then in range(3):
+                conds.append({"name": "gate_section_redraw[%s,then %s]" % (m[0], ["older section writes", "clear", "overwrite"][then]), "fn": gate_section_redraw, "timeout": t, "part": {"meth": mi, "then": then},
+                              "bounds": b + "younger of two stacked ANSI sections, SectionOutput.%s, then %s" % (m[0], ["the older section writes (re-draw)", "the section is cleared", "the section is overwritten"][then])})
     for mi, m in enumerate(IO_METHODS):
         for buffered in (True, False):
             conds.append({"name": "gate_io[%s,%s]" % (m[0], "BufferedIO" if buffered else "IO"), "fn": gate_io, "timeout": t,
